@@ -78,8 +78,10 @@ N_OverRoots == {[cls |-> "BasebandSignal", sh |-> <<2, 2, 1>>, back |-> "np", ch
 N_OverOps == {O("to_dask", <<>>), O("fft_axis", <<1>>)}
 N_OverTags == {"fft"}
 \* same-object histories and runs in the middle: look, change / transform, look again
-GR_Roots == RootsOf({<<4, 2, 1>>}, 2) \cup ReaderRoots({<<4, 2, 1>>}, 2)
-GR_Ops == {O("ufunc", <<>>), O("iufunc", <<>>), O("fft_axis", <<1>>), O("tslice", <<1, None, None>>),
-           O("time_shift", <<1, -6>>), O("rechunk", <<1>>)}
+GR_Roots == {[cls |-> "BasebandSignal", sh |-> <<4, 2, 1>>, back |-> b, ch |-> g] :
+               b \in {"dask", "reader"}, g \in {Single(<<4, 2, 1>>), <<<<2, 2>>, <<2>>, <<1>>>>}}
+            \cup {[cls |-> "BasebandSignal", sh |-> <<4, 2, 1>>, back |-> "dask", ch |-> <<<<4>>, <<1, 1>>, <<1>>>>],
+                  [cls |-> "BasebandSignal", sh |-> <<4, 2, 1>>, back |-> "np", ch |-> Single(<<4, 2, 1>>)]}
+GR_Ops == {O("ufunc", <<>>), O("iufunc", <<>>), O("fft_axis", <<1>>), O("time_shift", <<1, -6>>)}
 None_ == {}
 =============================================================================
